@@ -347,11 +347,13 @@ func (net *vhNet) vhOfferedOnce(origin int, v *accountant.Vertex, where string) 
 	verifrt.Assert(net.ledgers[origin].offers[v.Hash] == 0, "C11/"+where+"/origin-never-offered-its-own-vertex")
 }
 
-func vhC11Nodes() int {
+func vhC11Nodes() int { return 3 }
+
+func vhC11Preemptions() int {
 	if verifrt.Thorough() {
-		return 4
+		return 2
 	}
-	return 3
+	return 1
 }
 
 // VH_C11_single: one vertex, every connected topology, every origin, all delivery orders within the
@@ -363,7 +365,7 @@ func VH_C11_single() {
 		return
 	}
 	o := verifrt.Choose("origin", n)
-	verifrt.ExploreSchedules(1)
+	verifrt.ExploreSchedules(vhC11Preemptions())
 	v := vhNetVertex(0, nil)
 	net.originate(o, v)
 	verifrt.Settle()
